@@ -21,6 +21,7 @@ BOUNDS = {
     "quick": "ggivens: all ordered pairs of 27 letters (zero, Q8, dyadic, 2^-60 Q8, generic); Hess: k<=4, all 2^k masks x zero-column positions x 2 letter kinds; solves: n<=4, nrhs<=4, 5 uniform scales + single-entry scales, 4 solvers",
     "thorough": "same with 3 fill rows and k<=6",
 }
+THOROUGH_STREAMS = 8
 WALL_BUDGET = {"quick": 300, "thorough": 1800}
 ASSUMPTIONS = [
     "ggivens thresholds its input norm at eps (absolute): for pairs of norm <= eps the identity is accepted if the mapped pair is within 4 eps of (norm, 0)",
